@@ -283,6 +283,9 @@ func carries(errText, class, msg string) bool {
 	if !strings.Contains(errText, ttlv.EnumStr(status)) || !strings.Contains(errText, msg) {
 		return false
 	}
+	if len(parts) > 2 && parts[2] == "notsupp" && !strings.Contains(errText, ttlv.EnumStr(kmip.ResultReasonOperationNotSupported)) {
+		return false // whatever the status, the server's reason is part of what the caller is told
+	}
 	if parts[0] == "F" {
 		switch parts[2] {
 		case "known", "pl":
